@@ -195,7 +195,7 @@ func pool(r *ev.Recorder, n int) []keyEnt {
 	return ks
 }
 
-var craftKinds = []string{"valid", "valid-ref-signed", "dishonest-z", "dishonest-z", "dishonest-r0", "hint-swap", "hint-duplicate", "hint-padding", "hint-count-over", "hint-count-decreasing", "hint-count-into-padding", "hint-count-chain",
+var craftKinds = []string{"valid", "valid-ref-signed", "dishonest-z", "dishonest-z", "dishonest-r0", "hint-swap", "hint-duplicate", "hint-padding", "hint-padding-pair", "hint-count-over", "hint-count-decreasing", "hint-count-into-padding", "hint-count-chain",
 	"other-message", "other-key", "z-set-extreme", "garbage", "garbage-keep-hints", "challenge-last-byte"}
 
 func TestCrafted(t *testing.T) {
@@ -240,7 +240,7 @@ func TestCrafted(t *testing.T) {
 			if a.ZNorm == dilref.Gamma1-dilref.Beta {
 				r.Count("dishonest_z_exactly_at_bound", 1)
 			}
-		case "hint-swap", "hint-duplicate", "hint-padding", "hint-count-over", "hint-count-decreasing", "hint-count-into-padding":
+		case "hint-swap", "hint-duplicate", "hint-padding", "hint-padding-pair", "hint-count-over", "hint-count-decreasing", "hint-count-into-padding":
 			s := honest()
 			rows, ok := hintRows(s)
 			r.Health(ok, "honest signature has malformed hints")
@@ -294,6 +294,18 @@ func TestCrafted(t *testing.T) {
 				o[offHint+p] = byte(rapid.IntRange(1, 255).Draw(rt, "v"))
 				c.Sig = o
 				detail = fmt.Sprintf("padding byte %d set to %d", p, o[offHint+p])
+			case "hint-padding-pair":
+				if total > 72 {
+					c.Sig, c.Expect, c.Class = s, "accept", "valid"
+					break
+				}
+				a := rapid.IntRange(total, 73).Draw(rt, "p1")
+				b := rapid.IntRange(a+1, 74).Draw(rt, "p2")
+				v := byte(rapid.IntRange(1, 255).Draw(rt, "v"))
+				o := append([]byte{}, s...)
+				o[offHint+a], o[offHint+b] = v, byte(256-int(v))
+				c.Sig = o
+				detail = fmt.Sprintf("padding bytes %d,%d set to %#02x,%#02x (sum 0 mod 256)", a, b, v, byte(256-int(v)))
 			case "hint-count-over":
 				o := append([]byte{}, s...)
 				row := rapid.IntRange(0, 7).Draw(rt, "row")
